@@ -430,17 +430,20 @@ class MailboxData(MailboxDataInterface[Message]):
 
     async def cleanup(self) -> None:
         self._maildir.clean()
-        keys = await self._get_keys()
-        async with UidList.with_write(self._path) as uidl:
-            for rec in list(uidl.records):
-                key = rec.key
-                info = keys.get(key)
-                if info is None:
-                    uidl.remove(rec.uid)
-                else:
-                    filename = key + ':' + info
-                    new_rec = Record(rec.uid, rec.fields, filename)
-                    uidl.set(new_rec)
+        # under the lock, so that no message appears between the listing and
+        # the update: its record would be dropped as stale
+        async with self.messages_lock.read_lock():
+            keys = self._list_keys()
+            async with UidList.with_write(self._path) as uidl:
+                for rec in list(uidl.records):
+                    key = rec.key
+                    info = keys.get(key)
+                    if info is None:
+                        uidl.remove(rec.uid)
+                    else:
+                        filename = key + ':' + info
+                        new_rec = Record(rec.uid, rec.fields, filename)
+                        uidl.set(new_rec)
 
     async def messages(self) -> AsyncIterable[Message]:
         async with UidList.with_read(self._path) as uidl:
